@@ -14,7 +14,7 @@ import sbmlgen
 
 REQUIRED_THEOREMS = [
     'C09_published_order', 'C09_state_assignment', 'C09_const_assignment', 'C09_simulate_eq_spec',
-    'C09_simulate_eq_spec_partial', 'C09_empty_grid_counterexample',
+    'C09_empty_grid_counterexample_before_3790485', 'C09_name_map_aligned', 'C09_sens_restricted_map',
     'C09_sens_order', 'C09_sens_restricted', 'C09_sens_reduced', 'C09_sens_is_derivative',
     'C09_sens_all_fixed_counterexample_before_f18d571', 'C09_sens_step_indep', 'C09_sens_reselect',
     'C09_sens_history', 'C09_reduced_history',
@@ -83,7 +83,7 @@ def perm_class(states):
     return tuple(int(i) for i in order)
 
 
-def check_model(ctx, chi, model, rng, label, oracle=None, inp=None, budget=None):
+def check_model(ctx, chi, model, rng, label, oracle=None, inp=None, budget=None, pre_renamed=None):
     """all call-record correspondences and property checks for one chi model.
     oracle(outputs, params dict by published name, times, wrt names) -> (values, sens)"""
     budget = budget or {}
@@ -103,15 +103,16 @@ def check_model(ctx, chi, model, rng, label, oracle=None, inp=None, budget=None)
                      ('perm:involution' if all(pc[pc[i]] == i for i in range(len(pc))) else 'perm:general'))
     # ---- names, counts
     mt = ctx.model('C09.tables', *dargs)
+    pre_renamed = dict(pre_renamed or {})
     pub0 = list(model.parameters())
-    ctx.agree('C09.parameters', pub0, mt[3], inp)
+    ctx.agree('C09.parameters', pub0, [pre_renamed.get(n, n) for n in mt[3]], inp)
     ctx.agree('C09.n_parameters', int(model.n_parameters()), mt[2], inp)
     ctx.agree('C09.outputs_default', list(model.outputs()), mt[4], inp) if budget.get('default_outputs', True) else None
-    ctx.spec('C09.published_order', pub0 == sorted(states) + sorted(literal), inp,
-             {'parameters': pub0, 'states': states, 'literal': literal})
+    myo = sorted(states) + sorted(literal)          # myokit names in the published order the property states
+    ctx.spec('C09.published_order', pub0 == [pre_renamed.get(n, n) for n in myo], inp,
+             {'parameters': pub0, 'states': states, 'literal': literal, 'renamed before': pre_renamed})
     n_s = len(states)
     n_p = len(pub0)
-    myo = list(pub0)                     # myokit names in published order
     # ---- outputs
     admissible = states + list(new['inter'])
     outs = None
@@ -147,7 +148,7 @@ def check_model(ctx, chi, model, rng, label, oracle=None, inp=None, budget=None)
     if rng.random() < 0.4 and budget.get('rename', True):
         k = int(rng.integers(1, n_p + 1))
         idx = rng.choice(n_p, size=k, replace=False)
-        ren = {pub0[int(i)]: 'P%d_%s' % (int(i), pub0[int(i)].split('.')[-1][::-1]) for i in idx}
+        ren = {pub0[int(i)]: 'P%d_%s' % (int(i), myo[int(i)].split('.')[-1][::-1]) for i in idx}
         model.set_parameter_names(ren)
         pub = list(model.parameters())
         ctx.spec('C09.published_order', pub == [ren.get(n, n) for n in pub0], inp, {'renamed': pub})
@@ -197,22 +198,19 @@ def check_model(ctx, chi, model, rng, label, oracle=None, inp=None, budget=None)
         if label.startswith('library'):
             tag = 'C09.library_equations' if tag == 'C09.values' else tag
         ctx.spec(tag, ok, inp, {'chi': res, 'oracle': ov, 'rel_err': err})
-    # ---- empty time grid (known finding: `times[-1] + 1` raises; the property demands empty rows)
-    if budget.get('empty_grid', False):        # rare: Ctx keeps at most 200 failing records
+    # ---- empty time grid (since 3790485: one empty row per output, no integration)
+    if budget.get('empty_grid', True):
         try:
             r0 = np.asarray(model.simulate(params, []))
             c0 = ['ok', int(r0.shape[0]), [int(r0.shape[1])] * int(r0.shape[0])] if r0.ndim == 2 else ['shape', list(r0.shape)]
         except Exception as e:  # noqa
             c0 = [core.errkind(e)]
             ctx.errkinds.add(c0[0])
-        legacy = ctx.model('C09.grid', True, *dargs, outs, list(params), 0)
-        intended = ctx.model('C09.grid', False, *dargs, outs, list(params), 0)
-        ctx.agree('C09.empty_grid', c0, legacy if c0 == legacy else intended, inp)
-        ctx.branches.add('empty-grid:' + ('legacy' if c0 == legacy else 'intended' if c0 == intended else 'other'))
+        ctx.agree('C09.empty_grid', c0, ctx.model('C09.grid', False, *dargs, outs, list(params), 0), inp)
         ctx.spec('C09.empty_time_grid', c0 == ['ok', len(log_names), [0] * len(log_names)], dict(inp, times=[]),
                  {'simulate(parameters, [])': c0})
         ctx.agree('C09.grid_shape', ['ok', len(log_names), [len(times)] * len(log_names)],
-                  ctx.model('C09.grid', True, *dargs, outs, list(params), len(times)), inp)
+                  ctx.model('C09.grid', False, *dargs, outs, list(params), len(times)), inp)
     # ---- sensitivities: request record
     given = None
     mode = rng.random()
@@ -233,6 +231,13 @@ def check_model(ctx, chi, model, rng, label, oracle=None, inp=None, budget=None)
     ctx.spec('C09.sens_order', cs[0] == 'ok' and cs[2] == want and cs[1] == log_names, dict(inp, given=given),
              {'requested': cs, 'expected': want})
     if cs[0] == 'ok':
+        try:
+            e2 = model.simulate(params, [])
+            shp = [list(np.asarray(e2[0]).shape), list(np.asarray(e2[1]).shape)] if isinstance(e2, tuple) else 'no tuple'
+        except Exception as e:  # noqa
+            shp = core.errkind(e)
+        ctx.spec('C09.empty_time_grid', shp == [[len(log_names), 0], [0, len(log_names), len(keep)]],
+                 dict(inp, given=given, times=[]), {'shapes on the empty grid': shp})
         r2 = sim_record(model, params, times)[0]
         ok_shape = (not isinstance(r2, Exception)) and np.asarray(r2[1]).shape == (len(times), len(log_names), len(keep))
         ctx.spec('C09.sens_order', ok_shape, dict(inp, given=given),
@@ -488,9 +493,19 @@ def check_histories(ctx, chi, model, rng, dargs, states, inter, pub, myo, n_s, t
 # ------------------------------------------------------------------------------------------------
 # generated models
 # ------------------------------------------------------------------------------------------------
-def gen_oracle(spec):
+def gen_oracle(spec, depot_into=None):
+    """closed form of the generated model; `depot_into` = state id fed by a first-order absorption depot
+    (`dose.drug_amount`, `dose.absorption_rate`) as an indirect administration adds it"""
     lm = sbmlgen.closed_form(spec)
     st, co, outs = sbmlgen.name_maps(spec)
+    if depot_into is not None:
+        lm.states.append('__depot')
+        lm.rhs['__depot'] = cf.LinForm().add(cf.Mono(-1.0, {'__ka': 1}), '__depot')
+        lm.rhs[depot_into].add(cf.Mono(1.0, {'__ka': 1}), '__depot')
+        lm.outputs[('state', '__depot')] = cf.LinForm().add(cf.Mono(1.0), '__depot')
+        st['dose.drug_amount'] = '__depot'
+        co['dose.absorption_rate'] = '__ka'
+        outs['dose.drug_amount'] = ('state', '__depot')
 
     def oracle(outputs, by_name, times, wrt_names):
         x0 = {st[n]: v for n, v in by_name.items() if n in st}
@@ -500,16 +515,82 @@ def gen_oracle(spec):
     return oracle
 
 
+def administer(ctx, chi, model, rng, comp, amount_var, label, inp):
+    """PKPDModel: rename, choose a route of administration (the name tables and the name map are rebuilt),
+    rename again; the sensitivity request read through the rebuilt map is compared with the model.
+    Returns (direct, {myokit name: public name})"""
+    new0 = last_new()
+    names0 = sorted(new0['states']) + sorted(n for n, b in new0['consts'] if b)
+
+    def rand_rename(prefix, names, current):
+        if rng.random() < 0.5:
+            return {}
+        idx = rng.choice(len(names), size=int(rng.integers(1, len(names) + 1)), replace=False)
+        return {current.get(names[int(i)], names[int(i)]): '%s%d_%s' % (prefix, int(i), names[int(i)].split('.')[-1])
+                for i in idx}
+    public = {}
+    ren1 = rand_rename('A', names0, public)
+    if ren1:
+        model.set_parameter_names(ren1)
+        public.update({n: ren1[n] for n in names0 if n in ren1})
+    direct = bool(rng.random() < 0.4)
+    if rng.random() < 0.3:
+        model.enable_sensitivities(True)             # the route is chosen while sensitivities are on
+    refsim.clear_record()
+    model.set_administration(comp, amount_var=amount_var, direct=direct)
+    new1 = last_new()
+    names1 = sorted(new1['states']) + sorted(n for n, b in new1['consts'] if b)
+    public = {n: v for n, v in public.items() if n in names1}
+    ren2 = rand_rename('B', names1, public)
+    if ren2:
+        model.set_parameter_names(ren2)
+        for n in names1:
+            cur = public.get(n, n)
+            if cur in ren2:
+                public[n] = ren2[cur]
+    pub = list(model.parameters())
+    k = int(rng.integers(1, len(names1) + 1))
+    given = [pub[int(i)] for i in rng.permutation(len(names1))[:k]]
+    ainp = dict(inp, model=label, renamed_before=ren1, direct=direct, renamed_after=ren2, given=given)
+    refsim.clear_record()
+    try:
+        model.enable_sensitivities(True, given)
+        ns = last_new()
+        cs = [pub, 'ok', list(ns['sensitivities'][0]), list(ns['sensitivities'][1])]
+    except Exception as e:  # noqa
+        cs = [pub, core.errkind(e)]
+    model.enable_sensitivities(False)
+    mm = ctx.model('C09.mapsens', names0, [[a, b] for a, b in ren1.items()], True, *decl_args(new1),
+                   [[a, b] for a, b in ren2.items()], list(ns['sensitivities'][0]) if cs[1] == 'ok' else None, given)
+    ctx.agree('C09.name_map_sens', cs, mm, ainp)
+    n_s = len(new1['states'])
+    want = [('init(%s)' % names1[i]) if i < n_s else names1[i] for i in range(len(names1))
+            if public.get(names1[i], names1[i]) in given]
+    ctx.spec('C09.published_order', pub == [public.get(n, n) for n in names1], ainp, {'parameters': pub})
+    ctx.spec('C09.sens_order/after_administration', cs[1] == 'ok' and cs[3] == want, ainp,
+             {'requested': cs[1:], 'expected': want})
+    ctx.branches.add('administration:' + ('direct' if direct else 'indirect'))
+    return direct, public
+
+
 def run_generated(ctx, chi, i, rng, budget=None, n_states=None, max_states=6):
     spec = sbmlgen.gen_spec(rng, n_states=n_states, max_states=max_states)
     path = os.path.join(tmpdir(), 'm%d.xml' % i)
     sbmlgen.write_sbml(spec, path)
     refsim.clear_record()
-    cls = chi.SBMLModel if rng.random() < 0.7 else chi.PKPDModel
+    cls = chi.SBMLModel if rng.random() < 0.55 else chi.PKPDModel
     model = cls(path)
     os.remove(path)
-    budget = dict(budget or {}, empty_grid=(i % 20 == 0))
-    check_model(ctx, chi, model, rng, 'generated:%d' % i, gen_oracle(spec), {'spec': spec}, budget)
+    label = 'generated:%d' % i
+    oracle, pre = gen_oracle(spec), None
+    species = [s_ for s_ in spec['states'] if s_['kind'] == 'species']
+    if cls is chi.PKPDModel and species and rng.random() < 0.75:
+        s_ = species[int(rng.integers(len(species)))]
+        direct, pre = administer(ctx, chi, model, rng, s_['comp'], s_['id'] + '_amount', label, {'spec': spec})
+        oracle = gen_oracle(spec, None if direct else s_['id'])
+        label += ':administered'
+        budget = dict(budget or {}, default_outputs=False)      # the outputs selected before are kept
+    check_model(ctx, chi, model, rng, label, oracle, {'spec': spec}, budget, pre_renamed=pre)
 
 
 # ------------------------------------------------------------------------------------------------
@@ -567,8 +648,30 @@ def run_library(ctx, chi, rng, reps):
             # documented equations of the non-linear ones)
             check_model(ctx, chi, model, rng, label, oracle, {'rep': r},
                         {'set_outputs': False, 'default_outputs': False, 'empty_grid': r == 0})
-    # documented published order of the natural non-trivial case
+    # library PKPD models with a route of administration (indirect adds dose.* parameters)
     import chi.library
+    lib = chi.library.ModelLibrary()
+    lm = cf.one_compartment_documented(depot=True)
+    names = {'central.drug_amount': ('init', 'A'), 'dose.drug_amount': ('init', 'Ad'), 'central.size': ('const', 'V'),
+             'dose.absorption_rate': ('const', 'ka'), 'global.elimination_rate': ('const', 'ke')}
+    onames = {'central.drug_concentration': 'C', 'central.drug_amount': 'A', 'dose.drug_amount': 'Ad'}
+
+    def depot_oracle(outputs, by_name, times, wrt_names):
+        return lm.solve({'A': by_name['central.drug_amount'], 'Ad': by_name.get('dose.drug_amount', 0.0)},
+                        {'V': by_name['central.size'], 'ke': by_name['global.elimination_rate'],
+                         'ka': by_name.get('dose.absorption_rate', 1.0)},
+                        times, [names[n] for n in wrt_names], [onames[o] for o in outputs])
+    for r in range(reps):
+        for ctor, lab, orc in ((lib.one_compartment_pk_model, 'library:one_compartment_pk_model', depot_oracle),
+                               (lib.erlotinib_tumour_growth_inhibition_model, 'library:erlotinib', None)):
+            refsim.clear_record()
+            model = ctor()
+            direct, pre = administer(ctx, chi, model, rng, 'central', 'drug_amount', lab, {'rep': r})
+            if orc is None and direct:
+                orc = [c for c in library_cases(chi) if c[0].endswith('erlotinib_tumour_growth_inhibition_model')][0][2]
+            check_model(ctx, chi, model, rng, lab + ':administered', orc, {'rep': r, 'direct': direct},
+                        {'set_outputs': False, 'default_outputs': False}, pre_renamed=pre)
+    # documented published order of the natural non-trivial case
     m = chi.library.ModelLibrary().erlotinib_tumour_growth_inhibition_model()
     ctx.spec('C09.published_order', m.parameters()[:2] == ['central.drug_amount', 'global.tumour_volume'], {},
              m.parameters())
